@@ -103,7 +103,7 @@ Fixpoint classify (seen : list (list Z)) (ds : list (list Z)) (os : list obs) : 
       if peak <=? ALLOC_C * len d + ALLOC_K then classify (d :: seen) ds' os' else 0%N
   | d :: _, OPanic s :: _ =>
       let cur := [d] in let all := d :: seen in
-      if fnset_site s then (if C07_known_fnset d then 8%N else 0%N)
+      if fnset_site s then (if is_panic (parse_message d) then 8%N else 0%N)
       else if site_file s =? 1 then (if any_sub k_inforeply cur then 1%N else 0%N)
       else if site_file s =? 6 then (if any_sub k_set_max cur then 3%N else 0%N)
       else if site_file s =? 5 then
